@@ -220,7 +220,29 @@ impl Property for C09 {
             Tier::Thorough => 4_000_000,
         }
     }
-    fn generate(&self, seed: u64, run: u64, tier: Tier, _avoid: &BTreeSet<String>) -> MacCase {
+    fn generate(&self, seed: u64, run: u64, tier: Tier, avoid: &BTreeSet<String>) -> MacCase {
+        // one run in five borrows another property"s generator (same case type), so that this oracle also
+        // judges histories of shapes its own generator does not produce
+        if let Some(c) = super::cross_generate("C09", &["C04", "C06", "C07", "C08", "C10", "C11", "C12"], seed, run, tier, avoid) {
+            return c;
+        }
+        self.own_generate(seed, run, tier, avoid)
+    }
+    fn execute(&self, case: &MacCase, want_trace: bool) -> Outcome {
+        let mut mon = Mon { expand: case.knob == 1 && case.ops.len() < 60, case: case.clone(), secondary: false };
+        let out = run_case(case, &mut mon, want_trace);
+        Outcome { violation: out.violation, stats: out.stats, trace: out.trace }
+    }
+    fn self_test(&self) -> Result<(), String> {
+        crate::self_test_refs()
+    }
+    fn expected_probes(&self, _tier: Tier) -> Vec<&'static str> {
+        vec!["probe.tx-checked", "probe.fixed-join-checked", "probe.commanded-power-in-force", "probe.rng-outcome-enumerated"]
+    }
+}
+
+impl C09 {
+    pub fn own_generate(&self, seed: u64, run: u64, tier: Tier, _avoid: &BTreeSet<String>) -> MacCase {
         let mut r = Rng::new(run_seed(seed, "C09", run));
         let mut cfg = gen_cfg(&mut r, &CfgProfile { frontends: ALL_FRONTENDS, otaa_pct: 50, boundary_counters_pct: 0, join_bias_pct: 60 });
         let mut ops = Vec::new();
@@ -292,16 +314,5 @@ impl Property for C09 {
             Tier::Quick => run % 8 == 0,
         };
         MacCase { cfg, ops, knob: expand as u64 }
-    }
-    fn execute(&self, case: &MacCase, want_trace: bool) -> Outcome {
-        let mut mon = Mon { expand: case.knob == 1 && case.ops.len() < 60, case: case.clone(), secondary: false };
-        let out = run_case(case, &mut mon, want_trace);
-        Outcome { violation: out.violation, stats: out.stats, trace: out.trace }
-    }
-    fn self_test(&self) -> Result<(), String> {
-        crate::self_test_refs()
-    }
-    fn expected_probes(&self, _tier: Tier) -> Vec<&'static str> {
-        vec!["probe.tx-checked", "probe.fixed-join-checked", "probe.commanded-power-in-force", "probe.rng-outcome-enumerated"]
     }
 }
